@@ -70,7 +70,15 @@ func ruleL1(c *Ctx, rule string) {
 		if last != types.Typ[types.Bool] {
 			continue // error-returning variants return dec.Err() themselves
 		}
-		gf := mustFlow(fn, facts{}, nil, func(f facts, b *ssa.BasicBlock, s int) facts { return f.with(valueEdgeFacts(b, s)...) })
+		gf := mustFlow(fn, facts{}, nil, func(f facts, b *ssa.BasicBlock, s int) facts {
+			add := valueEdgeFacts(b, s)
+			for _, a := range edgeAtoms(b, s) {
+				if r, ok := loadedField(a.V); ok && r.is("Decoder", "err") && a.Nil == -1 {
+					add = append(add, "fail:(*Decoder).returnErr") // the error field itself is known non-nil
+				}
+			}
+			return f.with(add...)
+		})
 		failFact := func(fs facts) bool {
 			for f := range fs {
 				if strings.HasPrefix(f, "fail:(*Decoder).Expect") || f == "fail:(*Decoder).returnErr" {
